@@ -54,23 +54,28 @@ def IR.addFunctionBlock (ir : IR) (b f : Nat) : IR :=
   { ir with aux := { ir.aux with funcBlocks := setAdd f b ir.aux.funcBlocks },
             fbb := aset b f ir.fbb }
 
+/-- one table of `remove_function_block_aux`: discard the block from the function's set; the
+flag says whether the set is still non-empty -/
+def dropMember (b f : Nat) (t : List (Nat × List Nat)) : List (Nat × List Nat) × Bool :=
+  match alookup f t with
+  | none => (t, false)
+  | some bs =>
+    if bs.isEmpty then (t, false)
+    else (aset f (bs.filter (· != b)) t, !(bs.filter (· != b)).isEmpty)
+
 /-- `remove_function_block_aux` -/
 def IR.removeFunctionBlock (ir : IR) (b : Nat) : IR :=
   match alookup b ir.fbb with
   | none => ir
   | some f =>
-    let ir1 := { ir with fbb := adel b ir.fbb }
-    let drop (t : List (Nat × List Nat)) : List (Nat × List Nat) × Bool :=
-      match alookup f t with
-      | none => (t, false)
-      | some bs =>
-        if bs.isEmpty then (t, false)
-        else let bs' := bs.filter (· != b); (aset f bs' t, !bs'.isEmpty)
-    let (fe, left1) := drop ir1.aux.funcEntries
-    let (fb, left2) := drop ir1.aux.funcBlocks
-    if left1 || left2 then { ir1 with aux := { ir1.aux with funcEntries := fe, funcBlocks := fb } }
-    else { ir1 with aux := { ir1.aux with funcEntries := adel f fe, funcBlocks := adel f fb,
-                                          funcNames := adel f ir1.aux.funcNames } }
+    let fe := dropMember b f ir.aux.funcEntries
+    let fb := dropMember b f ir.aux.funcBlocks
+    if fe.2 || fb.2 then
+      { ir with fbb := adel b ir.fbb, aux := { ir.aux with funcEntries := fe.1, funcBlocks := fb.1 } }
+    else
+      { ir with fbb := adel b ir.fbb,
+                aux := { ir.aux with funcEntries := adel f fe.1, funcBlocks := adel f fb.1,
+                                     funcNames := adel f ir.aux.funcNames } }
 
 def IR.functionBlocks (ir : IR) (f : Nat) : List Nat := (alookup f ir.aux.funcBlocks).getD []
 
